@@ -4,7 +4,9 @@ record which checks report a violation, and undo the change straight afterwards.
 import json, os, re, subprocess, sys, tempfile, shutil
 VERIF = os.path.dirname(os.path.dirname(os.path.abspath(__file__)))
 ALL = ["C%02d" % i for i in range(1, 19)]
-only = sys.argv[1] if len(sys.argv) > 1 else None
+args_ = [a for a in sys.argv[1:] if a != "--scratch"]
+SCRATCH = "--scratch" in sys.argv[1:]      # analyse a scratch copy of /repo with the change applied, leaving /repo alone
+only = args_[0] if args_ else None
 res = {}
 st = subprocess.run(["git", "-C", "/repo", "status", "--porcelain", "--untracked-files=no"], stdout=subprocess.PIPE, text=True).stdout.strip()
 if st:
@@ -14,7 +16,18 @@ for name in sorted(os.listdir(os.path.join(VERIF, "seeded"))):
     patch = os.path.join(d, "patch.diff")
     if not os.path.exists(patch) or (only and not re.search(only, name)):
         continue
-    r = subprocess.run(["git", "-C", "/repo", "apply", patch], stdout=subprocess.PIPE, stderr=subprocess.STDOUT, text=True)
+    scratch = None
+    if SCRATCH:
+        scratch = tempfile.mkdtemp(prefix="cv-seedscratch-")
+        for item in ("src", "Cargo.toml", "Cargo.lock", "doc"):
+            sp = os.path.join("/repo", item)
+            if os.path.isdir(sp):
+                shutil.copytree(sp, os.path.join(scratch, item))
+            elif os.path.exists(sp):
+                shutil.copy2(sp, os.path.join(scratch, item))
+        r = subprocess.run(["patch", "-p1", "-s", "--no-backup-if-mismatch", "-i", patch], cwd=scratch, stdout=subprocess.PIPE, stderr=subprocess.STDOUT, text=True)
+    else:
+        r = subprocess.run(["git", "-C", "/repo", "apply", patch], stdout=subprocess.PIPE, stderr=subprocess.STDOUT, text=True)
     if r.returncode != 0:
         res[name] = {"status": "patch does not apply", "detail": r.stdout[-300:]}
         print(name, "patch does not apply")
@@ -24,6 +37,8 @@ for name in sorted(os.listdir(os.path.join(VERIF, "seeded"))):
     try:
         def one(pid):
             env = dict(os.environ, CV_EVIDENCE_DIR=ev)
+            if scratch:
+                env["CV_REPO"] = scratch
             rr = subprocess.run([os.path.join(VERIF, "check"), pid], cwd=VERIF, env=env, stdout=subprocess.PIPE, stderr=subprocess.STDOUT, text=True)
             return pid, rr.returncode, re.findall(r"^  violation: (.*)$", rr.stdout, re.M)
         # the first check extracts the facts of the patched tree, the others reuse them in parallel
@@ -35,8 +50,11 @@ for name in sorted(os.listdir(os.path.join(VERIF, "seeded"))):
             if code != 0:
                 caught[pid] = keys
     finally:
-        subprocess.run(["git", "-C", "/repo", "checkout", "--", "."], check=True)
+        if scratch:
+            shutil.rmtree(scratch, ignore_errors=True)
+        else:
+            subprocess.run(["git", "-C", "/repo", "checkout", "--", "."], check=True)
         shutil.rmtree(ev, ignore_errors=True)
     res[name] = {"caught_by": caught}
     print("%-12s %s" % (name, {k: v[:2] for k, v in caught.items()} or "NOT CAUGHT"))
-json.dump(res, open(os.path.join(VERIF, "seeded", "last_run.json"), "w"), indent=1)
+json.dump(res, open(os.path.join(VERIF, "seeded", "last_run_scratch.json" if SCRATCH else "last_run.json"), "w"), indent=1)
